@@ -310,6 +310,34 @@ func (c *Case) WaitActors(d time.Duration) bool {
 	}
 }
 
+// WaitActorsOrHang waits until every goroutine started with Go has returned. If instead the
+// process becomes quiescent (nobody can take a step) while actors are still inside, it
+// returns hung=true after a confirming grace period; on timeout both results are false.
+func (c *Case) WaitActorsOrHang(d time.Duration) (finished, hung bool) {
+	ch := make(chan struct{})
+	go func() { c.wg.Wait(); close(ch) }()
+	deadline := time.After(d)
+	for {
+		select {
+		case <-ch:
+			return true, false
+		case <-deadline:
+			return false, false
+		case <-time.After(20 * time.Millisecond):
+		}
+		if s := TakeSnapshot(false); s.NotQuiet == 0 {
+			if QuiesceConfirmed(50*time.Millisecond, time.Second) {
+				select {
+				case <-ch:
+					return true, false
+				default:
+					return false, true
+				}
+			}
+		}
+	}
+}
+
 // Events returns a copy of the kept events.
 func (c *Case) Events() []Event {
 	c.mu.Lock()
